@@ -418,6 +418,11 @@ def check_case(case):
             v.append(("valid_model_refused" + (":target_spelling:" + case["spelling"] if case.get("spelling") else ""),
                       "%s\n%s" % (got[1][:400], base_text)))
         elif got[0] == "exception":
+            etype = got[1].split("@")[0]
+            if etype in ("OverflowError", "ZeroDivisionError") or (etype == "ValueError" and "math domain" in got[1]):
+                # a generated function left its numeric range on this grid (e.g. an embedding function at
+                # rho = 200): the model is outside the generator's intended domain, not a structural matter
+                return {"v": [], "cls": cls, "nt": False, "skip": True}
             v.append(("valid_model_internal_error:" + got[1].split(":")[0], "%s\n%s" % (got[1][:400], base_text)))
         nfun = len(m.get("pair", [])) + len(m.get("embed", []))
         return {"v": v, "cls": cls, "nt": nfun >= 2}
